@@ -311,6 +311,15 @@ def run_property(prop, tier, seed):
             path = write_replay(prop, "native", payload)
             violations.append(("obligation %s fails; the real function contradicts its contract on %s" % (o["id"], json.dumps(nat["input"], default=str)[:160]), path, True))
             continue
+        if not genuine and bounded_input is None:
+            # a CANDIDATE counter-model (the ground instance set is satisfiable, the
+            # complete stages timed out) on changed code proves nothing by itself: without
+            # a failing input from the bounded stand-in or a native replay in the same run
+            # the obligation is undecided, not violated (a behaviour-preserving refactoring
+            # of count_crawled_pages produced exactly this: benign-11)
+            write_replay(prop, "candidate", payload)
+            undecided.append({"function": q, "obligation": o["id"], "reason": "candidate counter-model after a source change (solver %s, ground instances satisfiable), not corroborated by a failing input: undecided" % o["status"]})
+            continue
         path = bounded_input or write_replay(prop, "obligation", payload)
         if bounded_input:
             write_replay(prop, "obligation", payload)
